@@ -41,6 +41,15 @@ def mp_module():
     return mp
 
 
+def canon_obs(x):
+    """Canonical, comparable form of ObservablesArray.tolist(): nested lists of sorted (pauli, coefficient) pairs."""
+    if isinstance(x, dict):
+        return tuple(sorted((str(k), round(float(getattr(v, "real", v)), 9)) for k, v in x.items()))
+    if isinstance(x, (list, tuple)):
+        return tuple(canon_obs(y) for y in x)
+    return repr(x)
+
+
 def tag_of(p):
     if isinstance(p, int):
         return p
@@ -107,7 +116,11 @@ class Fake:
                 vals = tuple(round(float(x), 9) for x in p.parameter_values.as_array().reshape(-1)) if getattr(p, "parameter_values", None) is not None else ()
             except Exception as e:  # not a coerced pub
                 own, vals = ("?", repr(e)[:80]), ()
-            rec.append((tag_of(p), own, vals))
+            try:
+                obs = canon_obs(p.observables.tolist()) if self.level == "estimator" else None
+            except Exception as e:
+                obs = ("?", repr(e)[:80])
+            rec.append((tag_of(p), own, vals, obs))
         self.received.append(dict(pubs=rec, kw={k: v for k, v in kw.items() if k in ("shots", "precision")}))
         return self.f(pubs)
 
@@ -300,6 +313,7 @@ class Run:
             from qiskit.quantum_info import SparsePauliOp
 
             from qiskit.circuit import Parameter
+            from qiskit.primitives.containers.observables_array import ObservablesArray
 
             own = self.cfg.get("own") or {}
             for ci, tags in enumerate(calls):
@@ -313,10 +327,15 @@ class Run:
                     if self.level == "sampler":
                         qc.measure(0, 0)
                         pubs.append((qc, val) if mine is None else (qc, val, mine))
+                        obs_c = None
                     else:
-                        pubs.append((qc, SparsePauliOp("Z"), val) if mine is None else (qc, SparsePauliOp("Z"), val, mine))
+                        # callers use different observables: other Pauli strings, coefficients, several per pub
+                        obs = [SparsePauliOp("Z"), SparsePauliOp("X"), SparsePauliOp(["Z", "X"], [0.5, round(0.1 * t, 6)]),
+                               [SparsePauliOp("Z"), SparsePauliOp("Y")], SparsePauliOp(["I", "Y"], [float(t), -1.0])][t % 5]
+                        obs_c = canon_obs(ObservablesArray.coerce(obs).tolist())
+                        pubs.append((qc, obs, val) if mine is None else (qc, obs, val, mine))
                     # what the wrapped primitive must see for this pub: its own shots/precision, else the call's keyword
-                    self.expected[t] = (mine if mine is not None else key, tuple(val))
+                    self.expected[t] = (mine if mine is not None else key, tuple(val), obs_c)
                 key = (self.cfg.get("keys") or {}).get(f"{i}:{ci}")
                 try:
                     if key is None:
@@ -677,11 +696,14 @@ def oracle(run: Run, faults_injected=None):
     if run.level != "runner":
         for k, rec in enumerate(fake.received):
             kwv = rec["kw"].get("shots" if run.level == "sampler" else "precision")
-            for tag, ownv, vals in rec["pubs"]:
+            for tag, ownv, vals, obs in rec["pubs"]:
                 exp = run.expected.get(tag)
                 if exp is None:
                     continue
                 eff = ownv if ownv is not None else kwv
+                if obs != exp[2]:
+                    v.append(("C06", "pub-altered", f"invocation {k}: pub {tag} was submitted with observables {exp[2]}, the wrapped estimator received {obs}"))
+                    break
                 if eff != exp[0] or vals != exp[1]:
                     v.append(("C06", "pub-altered", f"invocation {k}: pub {tag} was submitted with {'shots' if run.level == 'sampler' else 'precision'}={exp[0]} and parameter values {list(exp[1])}, "
                                                     f"the wrapped primitive received it with own value {ownv}, keyword {kwv} and parameter values {list(vals)}"))
@@ -759,7 +781,9 @@ LOCAL_NAMES = ("batch_index", "result", "exception")
 def locals_comparable():
     """The frame locals are compared only while run() still calls them batch_index / result / exception (a renaming is a
     behaviour-preserving rewrite: then these three fields are masked on both sides and the fact is noted)."""
-    code = mp_module().BatchingMutexPrimitiveJobRunner.run.__code__
+    mp = mp_module()
+    cls = mp.__dict__.get("_verif_orig_runner") or mp.BatchingMutexPrimitiveJobRunner  # the class of /repo, not the instrumented subclass
+    code = cls.__dict__["run"].__code__ if "run" in cls.__dict__ else cls.run.__code__
     return all(n in code.co_varnames for n in LOCAL_NAMES)
 
 
@@ -1135,7 +1159,9 @@ def run_property(ctx, pid):
         ewt = True
     ex.variant = (1 if ewt else 0, 1)
     ctx.notes["implementation_variant"] = dict(ext_wait_timed=ewt)
-    ctx.notes["frame_locals_compared"] = locals_comparable()
+    ctx.notes["frame_locals_compared"] = (
+        "batch_index / result / exception of every parked thread's frame of run() are part of the per-step comparison"
+        if locals_comparable() else "NOT compared: run() no longer has locals named batch_index / result / exception (masked on both sides)")
     ctx.rule = RULES[pid] + ("2-4 threads x 1-3 consecutive calls x 0-3 uniquely tagged pubs (plus batch sizes 40/301/1025 and sums crossing 300), with and without batch_waiting_duration; complete DFS over all controller choices "
                              "(thread, notified waiter, timeout, failure) for 2 threads x 1 call; random, contention-biased and freeze-one-thread schedules; wrapper level through Qiskit PrimitiveJob threads; "
                              "distinct = distinct (configuration, schedule); non-trivial = at least 2 threads and 20 steps")
